@@ -30,8 +30,8 @@ V2 == {Whole(1), Whole(-5), Txt(<<b_>>)}
 V3 == {Whole(-5), Whole(1), Txt(abc), Txt(<<b_>>)}
 
 Prefixes == {<<>>, <<61>>, <<60, 62>>, <<60>>, <<60, 61>>, <<62>>, <<62, 61>>}
-Operands == {<<49>>, <<45, 53>>, <<48, 46, 53>>, abc, <<b_>>}          \* 1  -5  0.5  abc  b
-Crits == {Txt(p \o o) : p \in Prefixes, o \in Operands} \cup {Whole(1), Whole(-5), Rat(1, 2)}
+Operands == {<<49>>, <<45, 53>>, <<48, 46, 53>>, abc, <<b_>>, <<48>>}   \* 1  -5  0.5  abc  b  0 (a zero operand is an operand)
+Crits == {Txt(p \o o) : p \in Prefixes, o \in Operands} \cup {Whole(1), Whole(-5), Rat(1, 2), Whole(0)}
 
 \* numeric operands in exponent notation (the spelling the library itself produces for small / large numbers): 1e1  5E-1  1E+1
 ExpOperands == {<<49, 101, 49>>, <<53, 69, 45, 49>>, <<49, 69, 43, 49>>}
@@ -75,6 +75,8 @@ KN == {Whole(1999999998), Whole(1999999999), Whole(2000000000)}
 
 \* numbers whose doubles take 16 or 17 digits to write down: a key or a criterion is the number, not a rendering of it
 KF == {Rat(1, 3), Rat(2, 3), Rat(3, 10), Rat(1, 7)}
+
+MV == {Whole(1), Whole(10), Txt(abc), Txt(<<b_>>), Bool(TRUE)}
 
 Triples == {<<Txt(<<a_>>), Whole(2), Bool(TRUE)>>, <<Whole(10), Whole(20), Whole(30)>>,
             <<Txt(abc), Txt(<<b_>>), Rat(1, 2)>>}
@@ -122,6 +124,11 @@ InitCase ==
            \/ case = C("MATCH", <<key, ColArr(c)>>)
   \/ \E k \in 1..4 : \E c \in [1..k -> TV], key \in TK :
         /\ Ascending(c)
+        /\ \/ case = C("MATCH", <<key, ColArr(c), Whole(1)>>)
+           \/ case = C("MATCH", <<key, ColArr(c)>>)
+  \* ... and on ascending columns of mixed types: the position counts the cells of every type
+  \/ \E k \in 2..4 : \E c \in [1..k -> MV], key \in MV \cup {Whole(0), Whole(5), Txt(<<122, 122>>), Bool(FALSE)} :
+        /\ Ascending(c) /\ \E i \in 1..k : Rank(c[i]) # Rank(c[1])
         /\ \/ case = C("MATCH", <<key, ColArr(c), Whole(1)>>)
            \/ case = C("MATCH", <<key, ColArr(c)>>)
   \* --- VLOOKUP exact: 3x3 tables, every key column, every column index
